@@ -417,9 +417,134 @@ def _tower_builder_rebuilds(src, problems):
     return rebuilds, assigns
 
 
+def _stmt_start(src, pos):
+    return max(src.rfind(c, 0, pos) for c in ";{}") + 1
+
+
+def _block_after(src, pos):
+    """(text, end) of the brace block that starts at the first `{` at/after pos (only whitespace may precede it)"""
+    m = re.match(r"\s*\{", src[pos:])
+    if not m:
+        return None, pos
+    o = pos + m.end() - 1
+    c = _matching_brace(src, o)
+    if c is None:
+        return None, pos
+    return src[o + 1 : c], c + 1
+
+
+def _refusal_branch(src, call_start, call_end):
+    """text of the branch taken when `<guard>.try_acquire()` yields no permit, for the spellings
+    let-else, match (None / _ arm), if-let-else, `if x.is_none()` after a plain `let x = ..`"""
+    head = src[_stmt_start(src, call_start) : call_start]
+    # let Some(p) = CALL else { B };
+    if re.search(r"\blet\s+Some\s*\(", head):
+        m = re.match(r"\s*else\b", src[call_end:])
+        if m:
+            b, _ = _block_after(src, call_end + m.end())
+            if b is not None:
+                return b
+    # [let p =] match CALL { Some(p) => .., None => B }
+    if re.search(r"\bmatch\s*$", head):
+        arms, _ = _block_after(src, call_end)
+        if arms is not None:
+            for arm in _split_top_level(arms):
+                am = re.match(r"(?:None|_)\s*=>\s*(.*)$", arm, flags=re.S)
+                if am:
+                    return am.group(1)
+            # arms whose bodies are blocks need no comma: look for the arm head directly
+            am = re.search(r"(?:\bNone|\b_)\s*=>\s*", arms)
+            if am:
+                b, _ = _block_after(arms, am.end())
+                return b if b is not None else arms[am.end() :]
+    # if let Some(p) = CALL { A } else { B }
+    if re.search(r"\bif\s+let\s+Some\s*\([^)]*\)\s*=\s*$", head):
+        a, end = _block_after(src, call_end)
+        if a is not None:
+            m = re.match(r"\s*else\b", src[end:])
+            if m:
+                b, _ = _block_after(src, end + m.end())
+                if b is not None:
+                    return b
+    # let x = CALL; … if x.is_none() { B }   /   let Some(p) = x else { B }
+    lm = re.search(r"\blet\s+(?:mut\s+)?(\w+)\s*(?::[^=;]+)?=\s*$", head)
+    if lm and re.match(r"\s*;", src[call_end:]):
+        v = re.escape(lm.group(1))
+        rest = src[call_end : call_end + 1500]
+        m = re.search(r"\bif\s+" + v + r"\s*\.\s*is_none\s*\(\s*\)", rest)
+        if m:
+            b, _ = _block_after(rest, m.end())
+            if b is not None:
+                return b
+        m = re.search(r"\blet\s+Some\s*\([^)]*\)\s*=\s*" + v + r"\s*else\b", rest)
+        if m:
+            b, _ = _block_after(rest, m.end())
+            if b is not None:
+                return b
+    return None
+
+
+_STATUS_NUM = {
+    "OK": 200, "BAD_REQUEST": 400, "UNAUTHORIZED": 401, "FORBIDDEN": 403, "NOT_FOUND": 404, "METHOD_NOT_ALLOWED": 405,
+    "REQUEST_TIMEOUT": 408, "PAYLOAD_TOO_LARGE": 413, "UNSUPPORTED_MEDIA_TYPE": 415, "TOO_MANY_REQUESTS": 429,
+    "INTERNAL_SERVER_ERROR": 500, "NOT_IMPLEMENTED": 501, "BAD_GATEWAY": 502, "SERVICE_UNAVAILABLE": 503,
+}
+
+
+def _alias_resolve(expr, text_before, depth=0):
+    """follow `let v = <expr>;` aliases and drop integer casts / parentheses"""
+    e = re.sub(r"\s+", " ", expr).strip()
+    while True:
+        e2 = re.sub(r"\s+as\s+(usize|u32|u64)$", "", e).strip()
+        if e2.startswith("(") and e2.endswith(")") and _balanced_arg(e2, 0) == e2[1:-1]:
+            e2 = e2[1:-1].strip()
+        if e2 == e:
+            break
+        e = e2
+    if re.fullmatch(r"[a-z_]\w*", e) and depth < 4:
+        lets = list(re.finditer(r"\blet\s+(?:mut\s+)?" + re.escape(e) + r"\s*(?::[^=;]+)?=\s*([^;]+);", text_before))
+        if lets:
+            return _alias_resolve(lets[-1].group(1), text_before[: lets[-1].start()], depth + 1)
+    return e
+
+
+def _impl_blocks(src, type_name):
+    """(start, end) of the bodies of the inherent `impl .. <type_name><..> { .. }` blocks"""
+    out = []
+    for im in re.finditer(r"\bimpl\b[^{;]*?\b" + type_name + r"\b[^{;]*\{", src):
+        if re.search(r"\bfor\s+" + type_name + r"\b", im.group(0)):
+            continue
+        o = im.end() - 1
+        c = _matching_brace(src, o)
+        if c is not None:
+            out.append((o, c))
+    return out
+
+
+def _fn_bodies(text):
+    """[(name, params, body)] of the fns directly or indirectly inside text"""
+    out = []
+    for m in re.finditer(r"\bfn\s+(\w+)\s*(?:<[^{;(]*>)?\s*\(", text):
+        params = _balanced_arg(text, m.end() - 1)
+        if params is None:
+            continue
+        after = m.end() + len(params) + 1
+        bm = re.match(r"[^{;]*\{", text[after:])
+        if not bm:
+            continue
+        o = after + bm.end() - 1
+        c = _matching_brace(text, o)
+        if c is not None:
+            out.append((m.group(1), params, text[o + 1 : c]))
+    return out
+
+
 def gen_conn_wiring(info):
     """C11: which configuration value sizes the connection guard at every construction site, the
-    public knob that feeds it, the single acquisition point and the refusal status."""
+    public knob that feeds it, the single acquisition point and the refusal status, and that the
+    tower-service builder hands its guard on.  The generated table carries NO line numbers (sites
+    are labelled by enclosing fn + ordinal) and no parameter / local names, so that it only changes
+    when the wiring changes; lines are reported in translate_info.json only."""
     rel = "server/src/server.rs"
     raw = read(rel)
     src = _strip_comments_keep_lines(raw)
@@ -428,87 +553,155 @@ def gen_conn_wiring(info):
     def lean_str(s):
         return '"' + s.replace("\\", "\\\\").replace('"', '\\"') + '"'
 
-    sites = []
+    def line_of(pos):
+        return src.count("\n", 0, pos) + 1
+
+    def with_ordinals(items):
+        """items = [(fn, ..)] in source order -> [(fn, ordinal within fn, ..)]"""
+        seen, out = {}, []
+        for it in items:
+            seen[it[0]] = seen.get(it[0], 0) + 1
+            out.append((it[0], seen[it[0]]) + tuple(it[1:]))
+        return out
+
+    sites_raw, site_lines = [], []
     for m in re.finditer(r"ConnectionGuard::new\s*\(", src):
         arg = _balanced_arg(src, m.end() - 1)
         fn_name, fn_params, body_at = _enclosing_fn(src, m.start())
-        line = src.count("\n", 0, m.start()) + 1
         if arg is None or fn_name is None:
-            problems.append(f"ConnectionGuard::new at line {line}: cannot delimit argument / enclosing fn")
+            problems.append(f"ConnectionGuard::new at line {line_of(m.start())}: cannot delimit argument / enclosing fn")
             continue
         res = _resolve_guard_arg(arg, fn_name, fn_params, src[body_at : m.start()])
         if res[0] == "unknown":
-            problems.append(f"ConnectionGuard::new at line {line}: unrecognised argument {res[1]!r}")
-        sites.append((line, fn_name, res))
-    if not sites:
+            problems.append(f"ConnectionGuard::new in {fn_name}: unrecognised argument {res[1]!r}")
+        sites_raw.append((fn_name, res))
+        site_lines.append(line_of(m.start()))
+    if not sites_raw:
         problems.append("no ConnectionGuard::new(..) site found in server/src/server.rs")
+    sites = with_ordinals(sites_raw)
 
-    rebuilds, assigns = _tower_builder_rebuilds(src, problems)
+    rebuilds_l, assigns_l = _tower_builder_rebuilds(src, problems)
+    rebuilds = with_ordinals([(fn, g, ci) for _ln, fn, g, ci in rebuilds_l])
+    assigns = [(fn, fld) for _ln, fn, fld in assigns_l]
 
-    # setter flows: `pub fn <name>(mut self, <p>: u32) -> Self { self.<field> = <p>; self }`
-    setter_flows = []
-    for m in re.finditer(r"pub fn (\w+)\s*\(\s*mut self\s*,\s*(\w+)\s*:\s*u32\s*\)\s*->\s*Self\s*\{\s*self\.(\w+)\s*=\s*(\w+)\s*;\s*self\s*\}", src):
-        if m.group(2) == m.group(4):
-            setter_flows.append((m.group(1), m.group(3), m.group(2)))
-    # ServerConfigBuilder::build : `ServerConfig { field: self.field, ... }`
-    build_flows = []
-    bm = re.search(r"pub fn build\s*\(\s*self\s*\)\s*->\s*ServerConfig\s*\{", src)
-    if bm:
-        body = find_block(src[bm.end() - 1 :], r"\{") or ""
-        lit = find_block(body, r"ServerConfig\s*\{") or ""
-        for fm in re.finditer(r"(\w+)\s*:\s*self\.(\w+)\s*,", lit):
-            build_flows.append((fm.group(1), fm.group(2)))
-    else:
-        problems.append("ServerConfigBuilder::build not found")
+    # ServerConfigBuilder: u32 setters `fn f(mut self, p: u32) -> Self { .. self.<field> = p .. }` and `build`
+    setter_flows, build_flows = [], []
+    scb = _impl_blocks(src, "ServerConfigBuilder")
+    if not scb:
+        problems.append("no `impl ServerConfigBuilder` block found")
+    found_build = False
+    for o, c in scb:
+        for name, params, body in _fn_bodies(src[o + 1 : c]):
+            pm = re.fullmatch(r"\s*mut\s+self\s*,\s*(\w+)\s*:\s*u32\s*,?\s*", params, flags=re.S)
+            if pm:
+                for am in re.finditer(r"\bself\s*\.\s*(\w+)\s*=\s*([^;=][^;]*);", body):
+                    if _alias_resolve(am.group(2), body[: am.start()]) == pm.group(1):
+                        setter_flows.append((name, am.group(1)))
+            if name == "build" and re.fullmatch(r"\s*(mut\s+)?self\s*", params):
+                lm = re.search(r"\bServerConfig\s*\{", body)
+                if not lm:
+                    continue
+                found_build = True
+                lc = _matching_brace(body, lm.end() - 1)
+                lit = body[lm.end() : lc] if lc else ""
+                before = body[: lm.start()]
+                for part in _split_top_level(lit):
+                    fm = re.match(r"(\w+)\s*(?::\s*(.*))?$", part, flags=re.S)
+                    if not fm:
+                        continue
+                    f, e = fm.group(1), fm.group(2)
+                    if e is None:
+                        if re.search(r"\blet\s+(?:Self|ServerConfigBuilder)\s*\{[^}]*\b" + f + r"\b[^}]*\}\s*=\s*self\b", before, flags=re.S):
+                            build_flows.append((f, f))
+                        else:
+                            r = _alias_resolve(f, before)
+                            sm = re.fullmatch(r"self\s*\.\s*(\w+)(\s*\.clone\(\))?", r)
+                            if sm:
+                                build_flows.append((f, sm.group(1)))
+                    else:
+                        sm = re.fullmatch(r"self\s*\.\s*(\w+)(\s*\.clone\(\))?", _alias_resolve(e, before))
+                        if sm:
+                            build_flows.append((f, sm.group(1)))
+    if scb and not found_build:
+        problems.append("ServerConfigBuilder::build (-> ServerConfig { .. }) not found")
+    # only the connection limit matters here (other fields come and go without touching C11)
+    setter_flows = [f for f in setter_flows if "max_connections" in f]
+    build_flows = [f for f in build_flows if "max_connections" in f]
 
-    # acquisition points and what happens when no permit is available
-    acquires = []
-    for m in re.finditer(r"(\w+)\.try_acquire\s*\(\s*\)", src):
-        fn_name, _, _ = _enclosing_fn(src, m.start())
-        line = src.count("\n", 0, m.start()) + 1
-        stmt_start = src.rfind(";", 0, m.start()) + 1
-        stmt = src[stmt_start : m.end() + 200]
-        em = re.match(r"\s*let\s+Some\s*\(\s*(\w+)\s*\)\s*=\s*\w+\.try_acquire\s*\(\s*\)\s*else\s*\{", stmt)
-        refusal = "unknown"
-        if em:
-            eb = find_block(stmt[em.end() - 1 :], r"\{") or ""
-            rm = re.search(r"return\s+async\s+move\s*\{\s*Ok\s*\(\s*(?:\w+::)*(\w+)\s*\(\s*\)\s*\)\s*\}", eb)
-            if rm:
-                refusal = rm.group(1)
-        if refusal == "unknown":
-            problems.append(f"try_acquire at line {line}: refusal branch not recognised")
-        acquires.append((line, fn_name or "?", refusal))
-    if not acquires:
-        problems.append("no try_acquire() call found in server/src/server.rs")
-
-    # status code of every response constructor named as a refusal
+    # response constructors of transport/http.rs and their status
     rel_http = "server/src/transport/http.rs"
     http_src = strip_comments(read(rel_http))
-    status_of = {}
-    for name in sorted({a[2] for a in acquires if a[2] != "unknown"}):
-        blk = find_block(http_src, r"pub fn " + re.escape(name) + r"\s*\(\s*\)\s*->\s*HttpResponse\s*\{")
-        sm = re.search(r"StatusCode::(\w+)", blk or "")
-        if sm:
-            status_of[name] = sm.group(1)
-        else:
-            problems.append(f"{rel_http}: status of {name}() not recognised")
-    status_num = {"TOO_MANY_REQUESTS": 429, "FORBIDDEN": 403, "OK": 200, "SERVICE_UNAVAILABLE": 503}
+    ctor_status = {}
+    for name, params, body in _fn_bodies(http_src):
+        if params.strip():
+            continue
+        sm = re.search(r"StatusCode::([A-Z_]+)", body)
+        nm_ = re.search(r"StatusCode::from_u16\s*\(\s*(\d+)\s*\)", body)
+        if sm and sm.group(1) in _STATUS_NUM:
+            ctor_status[name] = _STATUS_NUM[sm.group(1)]
+        elif nm_:
+            ctor_status[name] = int(nm_.group(1))
 
-    # future.rs: the guard's semaphore is sized by the constructor argument and `max` records it
+    # acquisition points and what is answered when no permit is available
+    acquires_raw, acquire_lines = [], []
+    for m in re.finditer(r"\b\w+(?:\s*\.\s*\w+)*\s*\.\s*try_acquire\s*\(\s*\)", src):
+        fn_name, _, _ = _enclosing_fn(src, m.start())
+        branch = _refusal_branch(src, m.start(), m.end())
+        refusal = "unknown"
+        if branch is not None and re.search(r"\breturn\b", branch):
+            names = sorted({n for n in ctor_status if re.search(r"\b" + re.escape(n) + r"\s*\(\s*\)", branch)})
+            if len(names) == 1:
+                refusal = names[0]
+        if refusal == "unknown":
+            problems.append(f"try_acquire in {fn_name}: refusal branch not recognised")
+        acquires_raw.append((fn_name or "?", refusal))
+        acquire_lines.append(line_of(m.start()))
+    if not acquires_raw:
+        problems.append("no try_acquire() call found in server/src/server.rs")
+    acquires = with_ordinals(acquires_raw)
+    status_of = {a[2]: ctor_status[a[2]] for a in acquires if a[2] in ctor_status}
+
+    # future.rs: the semaphore is sized by the constructor's parameter, `max` records it, permits are
+    # taken with `try_acquire_owned` on (a clone of) that semaphore and counted with `available_permits`
     rel_fut = "server/src/future.rs"
     fut = strip_comments(read(rel_fut))
     gimpl = find_block(fut, r"impl ConnectionGuard\s*\{") or ""
-    nm = re.search(r"pub fn new\s*\(\s*(\w+)\s*:\s*usize\s*\)\s*->\s*Self\s*\{\s*Self\s*\{\s*inner\s*:\s*Arc::new\s*\(\s*Semaphore::new\s*\(\s*([^()]+?)\s*\)\s*\)\s*,\s*max\s*:\s*([^,}]+?)\s*,?\s*\}\s*\}", gimpl)
-    if nm:
-        guard_new = (nm.group(1), nm.group(2).strip(), nm.group(3).strip())
+    fns = {name: (params, body) for name, params, body in _fn_bodies(gimpl)}
+    guard_new = ("?", "?")
+    if "new" in fns:
+        params, body = fns["new"]
+        pm = re.fullmatch(r"\s*(\w+)\s*:\s*usize\s*,?\s*", params)
+        sems = list(re.finditer(r"Semaphore::new\s*\(", body))
+        lm = re.search(r"\b(?:Self|ConnectionGuard)\s*\{", body)
+        if pm and len(sems) == 1 and lm:
+            p = pm.group(1)
+            sem_arg = _alias_resolve(_balanced_arg(body, sems[0].end() - 1) or "?", body[: sems[0].start()])
+            lc = _matching_brace(body, lm.end() - 1)
+            fields = {}
+            for part in _split_top_level(body[lm.end() : lc] if lc else ""):
+                fm = re.match(r"(\w+)\s*(?::\s*(.*))?$", part, flags=re.S)
+                if fm:
+                    fields[fm.group(1)] = fm.group(2) if fm.group(2) is not None else fm.group(1)
+            max_e = _alias_resolve(fields.get("max", "?"), body[: lm.start()])
+            inner_e = _alias_resolve(fields.get("inner", "?"), body[: lm.start()])
+            inner_parts = [inner_e] + [_alias_resolve(v, body[: lm.start()]) for v in re.findall(r"\b[a-z_]\w*\b", inner_e)]
+            if not any("Semaphore::new" in x for x in inner_parts):
+                problems.append(f"{rel_fut}: ConnectionGuard::new: `inner` is not built from the new semaphore")
+            guard_new = ("param" if sem_arg == p else sem_arg, "param" if max_e == p else max_e)
+        else:
+            problems.append(f"{rel_fut}: ConnectionGuard::new body not recognised")
     else:
-        guard_new = ("?", "?", "?")
-        problems.append(f"{rel_fut}: ConnectionGuard::new body not recognised")
-    am = re.search(r"pub fn try_acquire\s*\(\s*&self\s*\)\s*->\s*Option<ConnectionPermit>\s*\{\s*match\s+self\.inner\.clone\(\)\.try_acquire_owned\(\)\s*\{", gimpl)
-    av = re.search(r"pub fn available_connections\s*\(\s*&self\s*\)\s*->\s*usize\s*\{\s*self\.inner\.available_permits\(\)\s*\}", gimpl)
-    if not am:
-        problems.append(f"{rel_fut}: try_acquire is not `self.inner.clone().try_acquire_owned()`")
-    if not av:
+        problems.append(f"{rel_fut}: ConnectionGuard::new not found")
+    inner_clone = r"(?:self\s*\.\s*inner\s*\.\s*clone\s*\(\s*\)|Arc::clone\s*\(\s*&\s*self\s*\.\s*inner\s*\))"
+    tb = fns.get("try_acquire", ("", ""))[1]
+    if not (len(re.findall(r"\btry_acquire_owned\s*\(", tb)) == 1 and re.search(inner_clone + r"\s*\.\s*try_acquire_owned\s*\(\s*\)", tb)):
+        problems.append(f"{rel_fut}: try_acquire is not one `try_acquire_owned()` on a clone of `self.inner`")
+    elif re.search(r"\b(acquire_owned|acquire_many|acquire|add_permits|forget|close)\s*\(", re.sub(r"try_acquire_owned", "", tb)):
+        problems.append(f"{rel_fut}: try_acquire does more with the semaphore than `try_acquire_owned()`")
+    elif not (re.search(r"NoPermits\s*\)?\s*=>\s*None", tb) or re.search(r"\.\s*ok\s*\(\s*\)", tb)):
+        problems.append(f"{rel_fut}: try_acquire: `NoPermits` is not mapped to `None`")
+    ab = fns.get("available_connections", ("", ""))[1]
+    if not re.fullmatch(r"\s*(return\s+)?self\s*\.\s*inner\s*\.\s*available_permits\s*\(\s*\)\s*;?\s*", ab):
         problems.append(f"{rel_fut}: available_connections is not `self.inner.available_permits()`")
 
     ok = not problems
@@ -517,37 +710,11 @@ def gen_conn_wiring(info):
         if r[0] == "cfg":
             return f".cfgField {lean_str(r[1])}"
         if r[0] == "param":
-            return f".setterParam {lean_str(r[1])} {lean_str(r[2])}"
+            return f".setterParam {lean_str(r[1])}"
         if r[0] == "lit":
             return f".literal {r[1]}"
         return f".unknown {lean_str(r[1])}"
 
-    L = []
-    L.append("/- GENERATED by /verif/tools/translate.py from server/src/server.rs, server/src/future.rs,")
-    L.append("   server/src/transport/http.rs — do not edit. -/")
-    L.append("namespace Jrpc.Gen")
-    L.append("")
-    L.append(f"def connWiringTranslatorOk : Bool := {'true' if ok else 'false'}")
-    L.append("")
-    L.append("/-- what the argument of a `ConnectionGuard::new(..)` call denotes -/")
-    L.append("inductive GuardSrc where")
-    L.append("  | cfgField (field : String)                 -- `…server_cfg.<field> [as usize]` (possibly via a local `let`)")
-    L.append("  | setterParam (fn : String) (param : String) -- the `u32` parameter of the enclosing builder method")
-    L.append("  | literal (n : Nat)")
-    L.append("  | unknown (expr : String)")
-    L.append("  deriving DecidableEq, Repr")
-    L.append("")
-    L.append("structure GuardSite where")
-    L.append("  line : Nat")
-    L.append("  encl : String")
-    L.append("  src : GuardSrc")
-    L.append("  deriving DecidableEq, Repr")
-    L.append("")
-    L.append("/-- every `ConnectionGuard::new(..)` in server/src/server.rs -/")
-    L.append("def connGuardSites : List GuardSite := [")
-    L.append(",\n".join(f"  {{ line := {ln}, encl := {lean_str(fn)}, src := {src_lean(r)} }}" for ln, fn, r in sites))
-    L.append("]")
-    L.append("")
     def carry_lean(c):
         if c[0] == "carried":
             return ".carried"
@@ -555,6 +722,32 @@ def gen_conn_wiring(info):
             return ".missing"
         return f".fresh {lean_str(c[1])}"
 
+    L = []
+    L.append("/- GENERATED by /verif/tools/translate.py from server/src/server.rs, server/src/future.rs,")
+    L.append("   server/src/transport/http.rs — do not edit.  Sites are labelled by enclosing fn + ordinal. -/")
+    L.append("namespace Jrpc.Gen")
+    L.append("")
+    L.append(f"def connWiringTranslatorOk : Bool := {'true' if ok else 'false'}")
+    L.append("")
+    L.append("/-- what the argument of a `ConnectionGuard::new(..)` call denotes -/")
+    L.append("inductive GuardSrc where")
+    L.append("  | cfgField (field : String)  -- `…server_cfg.<field> [as usize]` (possibly via a local `let`)")
+    L.append("  | setterParam (fn : String)  -- the parameter of the enclosing builder method `fn`")
+    L.append("  | literal (n : Nat)")
+    L.append("  | unknown (expr : String)")
+    L.append("  deriving DecidableEq, Repr")
+    L.append("")
+    L.append("structure GuardSite where")
+    L.append("  encl : String")
+    L.append("  ord : Nat")
+    L.append("  src : GuardSrc")
+    L.append("  deriving DecidableEq, Repr")
+    L.append("")
+    L.append("/-- every `ConnectionGuard::new(..)` in server/src/server.rs -/")
+    L.append("def connGuardSites : List GuardSite := [")
+    L.append(",\n".join(f"  {{ encl := {lean_str(fn)}, ord := {o}, src := {src_lean(r)} }}" for fn, o, r in sites))
+    L.append("]")
+    L.append("")
     L.append("/-- where a field of a rebuilt `TowerServiceBuilder` comes from -/")
     L.append("inductive Carry where")
     L.append("  | carried                -- `self.<field>` (also via `..self`, a destructured `self`, `.clone()`)")
@@ -563,8 +756,8 @@ def gen_conn_wiring(info):
     L.append("  deriving DecidableEq, Repr")
     L.append("")
     L.append("structure Rebuild where")
-    L.append("  line : Nat")
     L.append("  encl : String")
+    L.append("  ord : Nat")
     L.append("  guard : Carry")
     L.append("  connId : Carry")
     L.append("  deriving DecidableEq, Repr")
@@ -572,17 +765,17 @@ def gen_conn_wiring(info):
     L.append("/-- every struct-literal reconstruction of the builder inside `impl TowerServiceBuilder` (the methods")
     L.append("that change a type parameter cannot mutate `self` and rebuild it field by field) -/")
     L.append("def towerBuilderRebuilds : List Rebuild := [")
-    L.append(",\n".join(f"  {{ line := {ln}, encl := {lean_str(fn)}, guard := {carry_lean(g)}, connId := {carry_lean(ci)} }}" for ln, fn, g, ci in rebuilds))
+    L.append(",\n".join(f"  {{ encl := {lean_str(fn)}, ord := {o}, guard := {carry_lean(g)}, connId := {carry_lean(ci)} }}" for fn, o, g, ci in rebuilds))
     L.append("]")
     L.append("")
-    L.append("/-- every assignment `self.conn_guard = ..` / `self.conn_id = ..` inside `impl TowerServiceBuilder`: (line, fn, field) -/")
-    L.append("def towerBuilderAssigns : List (Nat × String × String) := [")
-    L.append(",\n".join(f"  ({ln}, {lean_str(fn)}, {lean_str(fld)})" for ln, fn, fld in assigns))
+    L.append("/-- every assignment `self.conn_guard = ..` / `self.conn_id = ..` inside `impl TowerServiceBuilder`: (fn, field) -/")
+    L.append("def towerBuilderAssigns : List (String × String) := [")
+    L.append(",\n".join(f"  ({lean_str(fn)}, {lean_str(fld)})" for fn, fld in assigns))
     L.append("]")
     L.append("")
-    L.append("/-- builder setters `pub fn f(mut self, p: u32) -> Self { self.<field> = p; self }` as (fn, field, param) -/")
-    L.append("def cfgSetterFlows : List (String × String × String) := [")
-    L.append(",\n".join(f"  ({lean_str(a)}, {lean_str(b)}, {lean_str(c)})" for a, b, c in setter_flows))
+    L.append("/-- `ServerConfigBuilder` setters `fn f(mut self, p: u32) -> Self` that store `p` in `self.<field>`: (fn, field) -/")
+    L.append("def cfgSetterFlows : List (String × String) := [")
+    L.append(",\n".join(f"  ({lean_str(a)}, {lean_str(b)})" for a, b in setter_flows))
     L.append("]")
     L.append("")
     L.append("/-- `ServerConfigBuilder::build`: (ServerConfig field, builder field it is copied from) -/")
@@ -590,30 +783,30 @@ def gen_conn_wiring(info):
     L.append(",\n".join(f"  ({lean_str(a)}, {lean_str(b)})" for a, b in build_flows))
     L.append("]")
     L.append("")
-    L.append("/-- every `try_acquire()` call in server.rs: (line, enclosing fn, response constructor returned when no permit) -/")
-    L.append("def tryAcquireSites : List (Nat × String × String) := [")
-    L.append(",\n".join(f"  ({ln}, {lean_str(fn)}, {lean_str(rf)})" for ln, fn, rf in acquires))
+    L.append("/-- every `try_acquire()` call in server.rs: (enclosing fn, ordinal, response constructor returned when no permit) -/")
+    L.append("def tryAcquireSites : List (String × Nat × String) := [")
+    L.append(",\n".join(f"  ({lean_str(fn)}, {o}, {lean_str(rf)})" for fn, o, rf in acquires))
     L.append("]")
     L.append("")
     L.append("/-- HTTP status of the refusal constructors (transport/http.rs) -/")
     L.append("def refusalStatus : List (String × Nat) := [")
-    L.append(",\n".join(f"  ({lean_str(k)}, {status_num.get(v, 0)})" for k, v in sorted(status_of.items())))
+    L.append(",\n".join(f"  ({lean_str(k)}, {v})" for k, v in sorted(status_of.items())))
     L.append("]")
     L.append("")
-    L.append("/-- `ConnectionGuard::new(<param>)`: (parameter, semaphore size expression, `max` field expression) -/")
-    L.append(f"def guardNewShape : String × String × String := ({lean_str(guard_new[0])}, {lean_str(guard_new[1])}, {lean_str(guard_new[2])})")
+    L.append("/-- `ConnectionGuard::new(p)`: (size of the semaphore, value of `max`); \"param\" = exactly `p` -/")
+    L.append(f"def guardNewShape : String × String := ({lean_str(guard_new[0])}, {lean_str(guard_new[1])})")
     L.append("")
     L.append("end Jrpc.Gen")
     write_if_changed(os.path.join(GEN, "ConnWiring.lean"), "\n".join(L) + "\n")
     info["ConnWiring"] = {
-        "source": f"{rel} (ConnectionGuard::new at lines {[s[0] for s in sites]}, try_acquire at lines {[a[0] for a in acquires]}); {rel_fut} (ConnectionGuard impl); {rel_http} (refusal status)",
+        "source": f"{rel} (ConnectionGuard::new at lines {site_lines}, try_acquire at lines {acquire_lines}); {rel_fut} (ConnectionGuard impl); {rel_http} (refusal status)",
         "ok": ok,
         "problems": problems,
-        "sites": [[ln, fn, list(r)] for ln, fn, r in sites],
+        "sites": [[fn, o, list(r)] for fn, o, r in sites],
         "acquires": [list(a) for a in acquires],
         "refusal_status": status_of,
         "guard_new": list(guard_new),
-        "tower_builder_rebuilds": [[ln, fn, list(g), list(ci)] for ln, fn, g, ci in rebuilds],
+        "tower_builder_rebuilds": [[fn, o, list(g), list(ci)] for fn, o, g, ci in rebuilds],
         "tower_builder_assigns": [list(a) for a in assigns],
     }
 
